@@ -109,13 +109,17 @@ class Workspace:
                 f.write("\n#[doc(hidden)]\npub fn __verif_check_bracket_closed(s: &str) -> bool {\n    check_bracket_closed(s.chars())\n}\n")
         env = dict(ENV, CARGO_TARGET_DIR=os.path.join(CACHE, "target-native"), RUSTFLAGS="-Awarnings")
         cmd = ["cargo", "build", "--offline", "--bin", "verif_runner"] + (["--release"] if profile == "release" else [])
-        rc, out, err = sh(cmd, cwd=self.crate, env=env)
-        if rc != 0:
-            raise Broken("native runner build failed:\n" + err[-4000:])
-        exe = os.path.join(CACHE, "target-native", "release" if profile == "release" else "debug", "verif_runner")
-        # private copy: another check may rebuild the shared target dir meanwhile
+        # the dependency cache is shared between concurrently running checks: build and take a private copy of the
+        # binary under one lock, so that no other check can replace it in between
+        import fcntl
         mine = os.path.join(self.root, "verif_runner_" + profile)
-        shutil.copy2(exe, mine)
+        with open(os.path.join(CACHE, "target-native.lock"), "w") as lk:
+            fcntl.flock(lk, fcntl.LOCK_EX)
+            rc, out, err = sh(cmd, cwd=self.crate, env=env)
+            if rc != 0:
+                raise Broken("native runner build failed:\n" + err[-4000:])
+            exe = os.path.join(CACHE, "target-native", "release" if profile == "release" else "debug", "verif_runner")
+            shutil.copy2(exe, mine)
         self.timing["native_build_%s_s" % profile] = round(time.time() - t, 2)
         r = NativeRunner(mine)
         if r.cmd("ping") != "OK pong":
@@ -207,8 +211,15 @@ class Check:
     # -------------------------------------------------------------------------------------------- executors
     def executor(self, overflow_checks=True, timeout_ms=30000):
         ex = self.ws.executor(overflow_checks, seed=self.seed, timeout_ms=timeout_ms)
+        if self.tier == "thorough":
+            ex.ctx.portfolio = ((1, 10000), (7, 20000), (23, 40000))
+            ex.ctx.portfolio_cvc5 = True
         self.executors.append(ex)
         return ex
+
+    def over_budget(self):
+        budget = float(os.environ.get("VERIF_BUDGET_S", "900" if self.tier == "quick" else "5400"))
+        return time.time() - self.t0 > budget
 
     def step(self, label, fn, *a, **kw):
         """run one unit of a spec; VERIF_ONLY=<regex> restricts a debugging run to matching units"""
@@ -260,6 +271,16 @@ class Check:
         self.obligations += 1
         u["obligations"] += 1
         ctx = ex.ctx
+        nviol = sum(1 for v in self.violations if v["unit"] == unit and v["obligation"] == name)
+        if nviol >= 2:
+            # this obligation is already reported as violated (with replays); further instances add nothing but solver time
+            u["skipped_after_violation"] = u.get("skipped_after_violation", 0) + 1
+            return "skipped"
+        if self.over_budget():
+            if not getattr(self, "_budget_note", False):
+                self.inconclusive.append("time budget exhausted: remaining obligations were not decided")
+                self._budget_note = True
+            return "skipped"
         regs = self.regions_for(unit, name)
         ns = dict(inputs)
         ns.update({"And": z3.And, "Or": z3.Or, "Not": z3.Not, "If": z3.If, "Implies": z3.Implies, "Abs": lambda x: z3.If(x < 0, -x, x)})
@@ -420,6 +441,14 @@ class Check:
             if d["paths"] == 0 and d["obligations"] == 0:
                 self.inconclusive.append("unit %s explored no feasible path (vacuous harness)" % u)
         os.makedirs(os.path.join(VERIF, "replays"), exist_ok=True)
+        seen_v = set()
+        uniq = []
+        for v in self.violations:
+            k = json.dumps([v["unit"], v["obligation"], v["inputs"], v["replay"]], sort_keys=True, default=str)
+            if k not in seen_v:
+                seen_v.add(k)
+                uniq.append(v)
+        self.violations = uniq
         for i, v in enumerate(self.violations):
             h = hashlib.sha256(json.dumps(v, sort_keys=True, default=str).encode()).hexdigest()[:10]
             p = os.path.join(VERIF, "replays", "%s-%s.json" % (self.pid, h))
@@ -472,8 +501,9 @@ class Check:
             "wall_s": wall,
             "violations": len(self.violations),
         }
-        os.makedirs(os.path.join(VERIF, "evidence"), exist_ok=True)
-        with open(os.path.join(VERIF, "evidence", "%s.json" % self.pid), "w") as f:
+        evdir = os.environ.get("VERIF_EVIDENCE_DIR", os.path.join(VERIF, "evidence"))
+        os.makedirs(evdir, exist_ok=True)
+        with open(os.path.join(evdir, "%s.json" % self.pid), "w") as f:
             json.dump(ev, f, indent=1, default=str)
         for ln in lines:
             print(ln)
